@@ -101,7 +101,7 @@ def gen_special_pair(rng, which):
     """pairs built on the boundary-directed C14 generators"""
     if which == "iqr":  # screening by iqr_measure must not depend on the sign / scale of the feature
         a = c14.gen_iqr_case(rng)
-        k = rng.choice(["negate", "negate", "scale"])
+        k = rng.choice(["negate"] * 5 + ["scale"])
         a2, b, ren, must = transform(rng, a, k, target=0)
     else:
         a = c14.gen_two_measure_case(rng) if which == "two" else c14.gen_quali_filter_case(rng)
